@@ -994,6 +994,7 @@ class Explorer:
             elif val[0] == 'list':
                 st.env[t.id] = ('locallist', next(_uid))
                 st.locallen[t.id] = lin.lconst(len(val[1]))
+                self.emit(st, 'mklist', node, name=t.id, value=st.env[t.id], elems=val[1])
             else:
                 st.locallen.pop(t.id, None)
         elif isinstance(t, ast.Attribute):
@@ -1003,7 +1004,9 @@ class Explorer:
             if self_attr(t) is not None and self.track_attrs:
                 if val[0] == 'list':
                     st.locallen[txt] = lin.lconst(len(val[1]))
+                    elems = val[1]
                     val = ('locallist', next(_uid))
+                    self.emit(st, 'mklist', node, name=txt, value=val, elems=elems)
                 st.env[txt] = val
             if val[0] in ('tokenlist',):
                 st.locallen[txt] = {('tl:%d' % val[1]): 1}
